@@ -70,10 +70,14 @@ func main() {
 		os.Exit(2)
 	}
 	w.LoadS = time.Since(t0).Seconds()
-	rc := &runCtx{w: w, verif: *verif, tier: *tier, seed: seed, workers: runtime.NumCPU()}
-	rc.timeoutS = 20
+	rc := &runCtx{w: w, verif: *verif, tier: *tier, seed: seed, workers: runtime.NumCPU() / 2}
+	if rc.workers < 2 {
+		rc.workers = 2
+	}
+	// generous timeouts: obligations that hold discharge in seconds; only failing ones wait this long
+	rc.timeoutS = 60
 	if *tier == "thorough" {
-		rc.timeoutS = 90
+		rc.timeoutS = 240
 	}
 	if *timeout > 0 {
 		rc.timeoutS = *timeout
@@ -153,6 +157,65 @@ func (rc *runCtx) translateAll(only func(short string) bool) ([]*Obligation, []*
 			lemmaSeen[lv.name] = true
 			obls = append(obls, lemmaObligation(w, lv))
 		}
+	}
+	// writers declarations: syntactic scan of every store instruction of the package
+	for _, ws := range w.C.Writers {
+		short := shortPkg(ws.Pkg, w.ModPath)
+		if only != nil && !only(short+".writers") {
+			continue
+		}
+		tr := &FnCtx{W: w, Short: short}
+		if p := w.Pkgs[ws.Pkg]; p != nil {
+			tr.Pkg = p.Types
+		}
+		tr.comps = map[string]string{}
+		tr.decl = map[string]bool{}
+		var want []Comp
+		func() {
+			defer func() { recover() }()
+			want = tr.resolveComps(ws.Field, tr.Pkg)
+		}()
+		wantSet := map[string]bool{}
+		for _, c := range want {
+			wantSet[c.Name] = true
+		}
+		allowed := map[string]bool{}
+		for _, f := range ws.Funcs {
+			allowed[f] = true
+		}
+		var offenders []string
+		for _, k := range keys {
+			if !strings.HasPrefix(k, ws.Pkg+"::") {
+				continue
+			}
+			fn := w.Funcs[k]
+			name := strings.TrimPrefix(k, ws.Pkg+"::")
+			for _, b := range fn.Blocks {
+				for _, in := range b.Instrs {
+					st, ok := in.(*ssa.Store)
+					if !ok {
+						continue
+					}
+					cs, _ := tr.storeTargets(st.Addr)
+					for _, c := range cs {
+						if wantSet[c.Name] && !allowed[name] {
+							offenders = append(offenders, name+" at "+w.Prog.Fset.Position(st.Pos()).String())
+						}
+					}
+				}
+			}
+		}
+		goal := "true"
+		src := "only " + strings.Join(ws.Funcs, ", ") + " store to " + ws.Field + " (syntactic scan of all store instructions of the package)"
+		if len(want) == 0 {
+			goal = "false"
+			src += "; field not found"
+		}
+		if len(offenders) > 0 {
+			goal = "false"
+			src += "; OFFENDERS: " + strings.Join(offenders, "; ")
+		}
+		obls = append(obls, &Obligation{Name: short + "/writers[" + ws.Field + "]", Fn: short + ".writers", Kind: "scan", Goal: goal, Src: src, Ctx: tr})
 	}
 	// contracts attached to nothing
 	var ckeys []string
@@ -319,11 +382,14 @@ func (rc *runCtx) check(prop string, t0 time.Time) int {
 		g := gm[name]
 		ok := true
 		var worst *Obligation
-		var ms int64
+		var ms, maxMs int64
 		var solver string
 		bytes := 0
 		for _, o := range g.obls {
 			ms += o.Result.Ms
+			if o.Result.Ms > maxMs {
+				maxMs = o.Result.Ms
+			}
 			bytes += o.Result.Bytes
 			solver = o.Result.Solver
 			if !o.ok() {
@@ -335,7 +401,7 @@ func (rc *runCtx) check(prop string, t0 time.Time) int {
 		}
 		solverMs += ms
 		o0 := g.obls[0]
-		rec := map[string]interface{}{"name": name, "kind": o0.Kind, "solver": solver, "ms": ms, "vc_bytes": bytes, "clause": o0.Src}
+		rec := map[string]interface{}{"name": name, "kind": o0.Kind, "solver": solver, "ms": ms, "max_query_ms": maxMs, "queries": len(g.obls), "vc_bytes": bytes, "clause": o0.Src}
 		if o0.Kind == "canary" {
 			canaries++
 		}
